@@ -13,6 +13,7 @@ func init() {
 			"PV-CONST: 6*time.Hour == flag default \"6h\"; /250, math.Floor, *time.Second; plain number * time.Second",
 			"PV-ROLE: end default now; start default (end.After(now) ? now : end).Add(-since); RunE wiring of start/end/step/limit",
 			"FE-INT: len(value) threshold T with 10 <= T < 18 selecting time.Unix(n,0) vs time.Unix(0,n); math.Round on the fractional branch; RFC3339Nano fallback; empty -> default",
+			"since/until of openLog: the resolved range reaches the daemon as the same instants",
 		},
 		NotDecided: []string{"float rounding of fractional seconds beyond 'rounded, not truncated'", "model.ParseDuration semantics"},
 		Rules: func(r *Run) {
